@@ -226,7 +226,8 @@ class Loader(yaml.SafeLoader):
 
         elif recognized_type in self._registered_classes.values():
             if (not issubclass(recognized_type, enum.Enum)
-                    and not is_string_like(recognized_type)):
+                    and not is_string_like(recognized_type)
+                    and isinstance(node, yaml.MappingNode)):
                 for attr_name, type_, _ in class_subobjects(recognized_type):
                     cnode = Node(node)
                     if cnode.has_attribute(attr_name):
